@@ -12,6 +12,8 @@ PUB = periodictable.elements
 ELEM = ["Fe", "Ni", "Si", "Au", "Cr", "Co", "Ti", "Al", "Cu", "Pb", "W", "Mg", "Zn"]
 DENS = ["H2O@1", "D2O@1n", "NaCl@2.16", "SiO2@2.2", "C6H6@0.88", "CaCO3@2.71", "Fe2O3@5.24", "C2H6O@0.789", "H2O@1.0n",
         "Fe[56]2O3@5.1", "Na{+}Cl{-}@2.16", "(HO)2Ca@2.2"]
+# the same compounds in another phase / at another density (polymorphs), and elements away from their tabulated density
+DENS2 = ["SiO2@2.65", "CaCO3@2.93", "NaCl@1.9", "C@2.26", "C@3.51", "Fe@7.2", "Si@2.2", "H2O@0.917", "Fe2O3@4.9", "Ti@4.1"]
 NODENS = ["NaCl", "C2H6O", "CaCO3", "H2SO4", "C3H8"]
 MASS_U = ["ng", "ug", "mg", "g", "kg"]
 VOL_U = ["nL", "uL", "mL", "L"]
@@ -44,6 +46,8 @@ def component(allow_nodens=False, depth=1):
         return "(%s %s %s // %s)" % (num(p), kind, a, b)
     if allow_nodens and r < 0.3:
         return rng.choice(NODENS)
+    if rng.random() < 0.15:
+        return rng.choice(DENS2)
     return rng.choice(ELEM) if rng.random() < 0.5 else rng.choice(DENS)
 
 
